@@ -321,6 +321,27 @@ fn exec_c<C: Suite>(scen: &Scenario) -> Exec {
                             }
                         }
                     }
+                    // the component-wise route the documentation of from_nonces describes: each nonce stored with Nonce::serialize,
+                    // restored with Nonce::deserialize and re-assembled
+                    {
+                        rep.evaluations += 1;
+                        let h = frost::round1::Nonce::<C>::deserialize(&nonces[j].hiding().serialize());
+                        let b = frost::round1::Nonce::<C>::deserialize(&nonces[j].binding().serialize());
+                        match (h, b) {
+                            (Ok(h), Ok(b)) => {
+                                let rn = SigningNonces::<C>::from_nonces(h, b);
+                                let again = frost::round2::sign::<C>(&pkg, &rn, kp);
+                                let same = match (&mem, &again) {
+                                    (Ok(a), Ok(b)) => a.serialize() == b.serialize(),
+                                    _ => false,
+                                };
+                                if !same {
+                                    return Exec::Violation(Violation::new("C13", "C13.resumed_output_differs", format!("preprocess({k}) pair {j} stored nonce by nonce (Nonce::serialize) and re-assembled with from_nonces: sign gives {again:?} instead of {mem:?}")), rep);
+                                }
+                            }
+                            (h, b) => return Exec::Violation(Violation::new("C13", "C13.persisted_state_does_not_decode", format!("Nonce::deserialize(Nonce::serialize()) fails: {:?} / {:?}", h.err(), b.err())), rep),
+                        }
+                    }
                     rep.probe("preprocess_roundtrip");
                 }
             }
